@@ -202,7 +202,7 @@ type ValSpec struct {
 	Ref int    `json:"ref,omitempty"`
 }
 
-var smallStrings = []string{"", "a", "b", "ab", "A", "é", "a.b", "#1", "z"}
+var smallStrings = []string{"", "a", "b", "ab", "A", "é", "a.b", "#1", "z", "caf\u00e9", "\u00ff"}
 
 func genValSpec(t *rapid.T, containerWeight int) ValSpec {
 	switch pick(t, "vk", 2, 2, 6, 4, 5, containerWeight, containerWeight) {
